@@ -178,7 +178,7 @@ func runRevConcurrentBubble(r *core.Run) {
 			defer wg.Done()
 			for rd := 0; rd < rounds; rd++ {
 				for spins := 0; gate.Load() <= int64(rd) && !stop.Load(); spins++ { // released together, as tightly as possible
-					if spins > 2000 {
+					if spins > 300 {
 						runtime.Gosched()
 					}
 				}
@@ -199,7 +199,7 @@ func runRevConcurrentBubble(r *core.Run) {
 	for rd := 0; rd < rounds; rd++ {
 		gate.Store(int64(rd) + 1)
 		for spins := 0; done.Load() < int64((rd+1)*nG); spins++ {
-			if spins > 2000 {
+			if spins > 300 {
 				runtime.Gosched()
 			}
 		}
